@@ -146,10 +146,15 @@ let explain kd st o now ev =
      let untouched = if st.ss_cur then nodes_eqb now.ob_a prev.ob_a else nodes_eqb now.ob_b prev.ob_b in
      if not untouched then bad := "the other container changed" :: !bad;
      let (ps, ns) = if st.ss_cur then (prev.ob_b, now.ob_b) else (prev.ob_a, now.ob_a) in
-     if not (removed_ok o ps ns) then
-       bad := Printf.sprintf "%d element(s) of the selected container disappeared (%s) although this operation removes %s"
-           (int_of_nat (length (missing ps ns))) (join "," node_str (missing ps ns))
-           (match removal_budget o with Some O -> "none" | _ -> "at most one") :: !bad);
+     if not (removed_ok kd o ps ns) then begin
+       let over = match removal_budget o with Some b -> int_of_nat (length (missing ps ns)) > int_of_nat b | None -> false in
+       if over then
+         bad := Printf.sprintf "%d element(s) of the selected container disappeared (%s) although this operation removes %s"
+             (int_of_nat (length (missing ps ns))) (join "," node_str (missing ps ns))
+             (match removal_budget o with Some O -> "none" | _ -> "at most one") :: !bad
+       else
+         bad := Printf.sprintf "the operation removed %s, which is not the element it names" (join "," node_str (missing ps ns)) :: !bad
+     end);
   List.iter (fun e -> if not (destroy_ok all_prev e) then bad := ("destructor event " ^ event_str e ^ " does not name a live element at its place") :: !bad) ev;
   if is_pool kd && not (List.for_all pool_event_ok ev) then bad := "a pool container copied, moved or assigned an element" :: !bad;
   if (match o with ODestroy -> false | _ -> true) && List.exists (function EFree _ -> true | _ -> false) ev then
